@@ -222,6 +222,73 @@ class Gen:
                                         ("tuple", ("inst", INT), ("str", Q("t"))), ("inst", NONE) if i == 0 else ("inst", INT)]))
         return (kind,) + tuple((k, self.value(depth - 1)) for k in keys)
 
+    # -- "records": str-keyed dicts over a tiny key alphabet, merged at several levels ----------------
+    def record(self, depth=1):
+        rng = self.rng
+        keys = rng.sample(["a", "b", "c", "d"], rng.choice([1, 1, 2, 2, 3]))
+        out = []
+        for k in keys:
+            r = rng.random()
+            if depth > 0 and r < 0.15:
+                v = self.record(depth - 1)
+            elif depth > 0 and r < 0.25:
+                v = ("list",) + tuple(self.record(depth - 1) for _ in range(rng.choice([1, 2])))
+            else:
+                v = rng.choice([("inst", INT), ("inst", INT), ("str", Q("s")), ("inst", NONE), ("inst", FLOAT)])
+            out.append((("str", Q(k)), v))
+        return ("dict",) + tuple(out)
+
+    def record_struct(self):
+        """records nested so that TypedDicts with optional fields get merged again (second-stage merges)"""
+        rng = self.rng
+        recs = lambda: ("list",) + tuple(self.record() for _ in range(rng.choice([1, 2, 2, 3])))
+        r = rng.random()
+        if r < 0.2:
+            return recs()
+        if r < 0.4:
+            return ("list",) + tuple(recs() for _ in range(rng.choice([1, 2, 3])))
+        if r < 0.55:
+            return ("dict", (("str", Q("rows")), recs()))
+        if r < 0.65:
+            return ("tuple", recs(), rng.choice([("inst", INT), ("inst", NONE)]))
+        if r < 0.75:
+            return ("ddict", (("str", Q("k")), recs()))
+        if r < 0.85:
+            return self.record()
+        return ("set", ("tuple", ("inst", INT), ("str", Q("x"))))
+
+    def record_multiset(self):
+        rng = self.rng
+        n = rng.choice([1, 2, 2, 3, 4])
+        first = self.record_struct()
+        out = [first]
+        for _ in range(n - 1):
+            r = rng.random()
+            if r < 0.5:
+                # same outer shape, other records
+                out.append(self._reshape(first))
+            elif r < 0.7:
+                out.append(rng.choice([("inst", NONE), ("inst", INT), ("list",), ("dict",)]))
+            else:
+                out.append(self.record_struct())
+        return out
+
+    def _reshape(self, d):
+        if isinstance(d, str) or d[0] in ("inst", "str", "classObj"):
+            return d
+        h = d[0]
+        if h == "dict" and len(d) > 1 and all(kv[0][0] == "str" for kv in d[1:]) and any(
+                str(kv[0][1]) in "abcd" for kv in d[1:]):
+            return self.record()
+        if h in ("dict", "ddict"):
+            return (h,) + tuple((k, self._reshape(v)) for k, v in d[1:])
+        if h == "set":
+            return d
+        items = [self._reshape(e) for e in d[1:]]
+        if h == "list" and items and self.rng.random() < 0.5:
+            items = items[: self.rng.randrange(1, len(items) + 1)]
+        return (h,) + tuple(items)
+
     def multiset(self, maxn=6, depth=3):
         n = self.rng.choice([0, 1, 1, 2, 2, 3, 3, 4, 5, maxn])
         return self.similar_values(n, depth)
